@@ -2,13 +2,14 @@ package main
 
 import (
 	"bytes"
-
 	"fmt"
-	"github.com/mosaicnetworks/babble/src/config"
-	hg "github.com/mosaicnetworks/babble/src/hashgraph"
+	"strings"
 	"sync"
 	"sync/atomic"
 	"time"
+
+	"github.com/mosaicnetworks/babble/src/config"
+	hg "github.com/mosaicnetworks/babble/src/hashgraph"
 )
 
 // ---------------------------------------------------------------------------
@@ -49,8 +50,12 @@ func runLiveSoak(cs CaseSpec) *CaseResult {
 	var readerViolation atomic.Value
 	var reads int64
 	// readers: re-read blocks strictly below the last delivered index of that node
-	for i := range ln.Nodes {
-		l := ln.Nodes[i]
+	readersPerNode := int(cs.I("readers", 1))
+	if cs.I("readers", 1) > 1 {
+		readerPause = 20 * time.Microsecond
+	}
+	for i := 0; i < len(ln.Nodes)*readersPerNode; i++ {
+		l := ln.Nodes[i%len(ln.Nodes)]
 		wg.Add(1)
 		go func() {
 			defer wg.Done()
@@ -311,3 +316,18 @@ func liveDiag(ln *liveNet) ([]string, bool) {
 }
 
 func lastRoundOf(h *hg.Hashgraph) int { return h.Store.LastRound() }
+
+func init() {
+	// A live soak whose worker process dies of a Go runtime fatal error raised
+	// in Babble code (concurrent map access between the block API and the
+	// gossip routines) is a node that died while reporting a delivered block.
+	crashHandlers["C02"] = func(r *CaseResult) *Violation {
+		if r.Case.Kind != "soak" || !strings.Contains(r.Note, "fatal error: concurrent map") || !strings.Contains(r.Note, "node.(*Node).GetBlock") {
+			return nil
+		}
+		sig := "C02:node-dies-while-reporting-a-delivered-block"
+		msg := "a node read through its block API (Node.GetBlock, what the HTTP service calls) while it was committing blocks died of a Go runtime fatal error (concurrent map access in its block cache): " + firstLine(r.Note[strings.Index(r.Note, "fatal error"):])
+		path := writeWitness(r.Case, "C02", sig, msg, map[string]interface{}{"output": r.Note})
+		return &Violation{Prop: "C02", Sig: sig, Msg: msg, Replay: path}
+	}
+}
